@@ -52,8 +52,15 @@ ASSUMPTIONS = [
 
 
 def flip(b, ch, label):
+    """One flipped bit; a third of the time at a structural position (first bytes: tags and
+    lengths of DER / SEC1 encodings, last byte) and an extreme bit."""
     if not b:
         return b
+    if ch.draw(3, label + ".structural") == 1:
+        cands = [p for p in (0, 1, 2, 3, 4, len(b) - 1, len(b) // 2) if 0 <= p < len(b)]
+        i = cands[ch.draw(len(cands), label + ".spos")]
+        bit = (0, 7, 1, 5)[ch.draw(4, label + ".sbit")]
+        return b[:i] + bytes([b[i] ^ (1 << bit)]) + b[i + 1:]
     i = ch.draw(len(b), label + ".pos")
     return b[:i] + bytes([b[i] ^ (1 << ch.draw(8, label + ".bit"))]) + b[i + 1:]
 
@@ -157,6 +164,13 @@ def run_one(ch, cfg):
                         {"class": cls, "onboard_exit": st1, "attestation_exit": st2})
         root_hex = dev.issuer.pub65.hex()
         doc = A.load_json(w, A.ATT2)
+        if ch.draw(2, "validate-genuine-first") == 0:
+            try:
+                w.activate()
+                HSMCertificate.from_jsonfile(A.ATT2).validate_and_get_values(
+                    HSMCertificateRoot(root_hex))
+            except Exception:
+                pass
         if cls == "at-rest":
             kind = ch.pick(["message", "signature", "tweak", "swap-signatures", "re-sign",
                             "re-parent", "add-target", "remove-target", "drop-tweak"], "rest.kind")
